@@ -91,7 +91,7 @@ FIFTH_ROUND_MISSES = {
  "C15-13": "missed: runs asked at most a few hundred distinct questions -> long runs (34 x 34 = 1156 distinct questions) with memoisation forced",
  "C15-14": "missed: integer answers stayed below 2^53 -> an IntegerLambdaElicitor answering beyond 2^53",
  "C15-15": "missed: the valuation table behind a ValuationProfileElicitor was never edited between questions -> `table` items edit it in place",
- "C17-13": "missed by C17's check, caught by C03's on one seed of two: uniformly random profiles have one or two rotations -> instances with opposed interests (about n rotations, dense posets) in C03 and C17, and C17 now runs the stage-by-stage comparison of Irving's internals with the Lean mirror on the simulated values (reported as a broken correspondence, usually `no-failing-input-found`)",
+ "C17-13": "missed by C17's check, caught by C03's on one seed of two: uniformly random profiles have one or two rotations -> instances with opposed interests (about n rotations, dense posets) in C03 and C17, and C17 now runs the stage-by-stage comparison of Irving's internals with the Lean mirror on the simulated values (a broken correspondence; with the demonstration instances in the corpus the replay is a concrete unstable output)",
  "C17-14": "missed: valuations were at most 60 -> kind `huge` (values up to 2e9, one side possibly indifferent)",
  "C19-13": "missed: every categorical ballot listed something -> ballots with nothing but empty categories (as long as some other ballot lists an alternative: an election without any rank has no profile in this library)",
  "C19-14": "missed: at most 9 alternatives -> one instance in a hundred has 255..300",
